@@ -53,6 +53,25 @@ theorem C14_id_encoding (a b : Nat) (ha : a < 16777216) (hb : b < 16777216) :
     adjustId a = [a / 65536 % 256, a / 256 % 256, a % 256] ∧ (adjustId a = adjustId b → a = b) :=
   ⟨(adjustId_spec a ha).1, adjustId_injective a b ha hb⟩
 
+/-- The account's registration id (any value below 2^32; generated below 2^31) travels in the same encoding, four bytes wide from
+    2^24 on: the bytes are the big-endian digits of the id, so the server reads back exactly the id, and distinct ids differ. -/
+theorem C14_id_encoding_wide (a b : Nat) (ha : a < 4294967296) (hb : b < 4294967296) :
+    (adjustId a).foldl (fun acc x => acc * 256 + x) 0 = a ∧ (∀ x ∈ adjustId a, x < 256) ∧
+    (adjustId a).length = (if a < 16777216 then 3 else 4) ∧ (adjustId a = adjustId b → a = b) := by
+  have key : ∀ n, n < 4294967296 → (adjustId n).foldl (fun acc x => acc * 256 + x) 0 = n := by
+    intro n hn
+    unfold adjustId
+    split <;> simp [List.foldl] <;> omega
+  refine ⟨key a ha, ?_, ?_, ?_⟩
+  · intro x hx
+    unfold adjustId at hx
+    split at hx <;> simp at hx <;> omega
+  · unfold adjustId; split <;> simp
+  · intro h
+    have := key a ha
+    rw [h, key b hb] at this
+    exact this.symm
+
 /-- non-vacuity: a history with consumption and a refill; the refill starts above the consumed ids -/
 example :
     let es : List Ev := [.connect, .authed true, .consume 4, .consume 3, .consume 2, .connect, .authed true]
